@@ -230,6 +230,47 @@ func VerifC04_NestedChain() {
 	nd.Reach("end")
 }
 
+var zzC04Tree = []string{"/", "/a", "/ay", "/az", "/az/y", "/az/y/x"}
+
+// VerifC04_Tree: a small tree of paths of one host with siblings (/ay and /az under /a, a chain
+// below /az), each rule present or not and of any type, declared in list order or reversed, under
+// any path-type order; probes: every declared path, p/foo and px.
+func VerifC04_Tree() {
+	order := zzC04Orders[nd.Choice("order", nd.Param("ORDERS", len(zzC04Orders)))]
+	var rules []zzRule
+	for i, p := range zzC04Tree {
+		if !nd.Bool("present") {
+			continue
+		}
+		rules = append(rules, zzRule{host: "d.l", path: p, match: zzC04Types[nd.Choice("type", len(zzC04Types))], id: string(rune('1' + i))})
+	}
+	if nd.Bool("reversed") {
+		for i, j := 0, len(rules)-1; i < j; i, j = i+1, j-1 {
+			rules[i], rules[j] = rules[j], rules[i]
+		}
+	}
+	maps := CreateMaps(order)
+	hm := maps.AddMap("/m/_front.map")
+	for i, r := range rules {
+		hp := &HostPath{order: i, Link: CreateHostPathLink(r.host, r.path, r.match)}
+		hm.AddHostnamePathMapping(r.host, hp, r.id)
+	}
+	files := hm.MatchFiles()
+	for _, p := range zzC04Tree {
+		probes := []string{p, p + "x"}
+		if p == "/" {
+			probes = []string{"/", "/foo"}
+		} else {
+			probes = append(probes, p+"/foo")
+		}
+		for _, req := range probes {
+			nd.Record("request " + req)
+			zzC04Check(rules, files, "d.l", req)
+		}
+	}
+	nd.Reach("end")
+}
+
 // VerifC04_Precedence: N rules (host, path, type) and one request; the lookup over the generated
 // files returns an exact rule equal to the path if there is one, else a matching rule with the
 // longest declared path, and never a rule of another host.
